@@ -18,6 +18,11 @@
 (*                                   answer in the spec's ids               *)
 (*   exit  {run,how}                 the worker thread ended (clean/panic/  *)
 (*                                   hang)                                  *)
+(*   hold  {run,a} / release {run,a} the harness bound / dropped a plain    *)
+(*                                   socket (no SO_REUSEPORT) on listener   *)
+(*                                   address a (Env_HoldAddress / Release)  *)
+(*   holdfail {run,a}                its bind was refused: a proxy listener *)
+(*                                   is bound to the address                *)
 (* Within a batch the harness writes the cmd events (worker order) and then *)
 (* the responses (channel order): cmd(i) happens before resp(i) through the *)
 (* channel, so this is a linearisation, not a wall-clock merge.             *)
@@ -48,7 +53,7 @@ T_Reset ==
   /\ cfg' = CfgInit /\ rl' = {} /\ slabL' = {} /\ base' = SysEntries /\ rcl' = {} /\ rbe' = {}
   /\ queue' = <<>> /\ out' = <<>> /\ n' = 0 /\ term' = [j \in 1..MaxReq |-> 0]
   /\ shut' = 0 /\ stopped' = FALSE /\ handed' = FALSE /\ allOk' = TRUE /\ hist' = <<>> /\ prev' = <<>>
-  /\ gate' = TRUE /\ pending' = {} /\ crashed' = FALSE
+  /\ gate' = TRUE /\ pending' = {} /\ crashed' = FALSE /\ held' = {}
   /\ rd' = 0 /\ Consume
 
 T_Send == Is("send") /\ Consume /\ UNCHANGED <<vars, rd>>
@@ -97,12 +102,27 @@ T_Exit ==
   /\ Ev.how = "clean" /\ stopped
   /\ Consume /\ UNCHANGED <<vars, rd>>
 
+\* the environment's OS-level faults (the harness is the foreign process)
+T_Hold ==
+  /\ Is("hold")
+  /\ Env_HoldAddress(Ev.a)
+  /\ UNCHANGED rd /\ Consume
+T_Release ==
+  /\ Is("release")
+  /\ Env_ReleaseAddress(Ev.a)
+  /\ UNCHANGED rd /\ Consume
+T_HoldFail ==
+  /\ Is("holdfail")
+  /\ BoundBySozu(Ev.a)
+  /\ Consume /\ UNCHANGED <<vars, rd>>
+
 T_Silent ==
   /\ silent < 2 /\ i <= Len(Rec)
   /\ (Flush \/ LoopEnd)
   /\ silent' = silent + 1 /\ UNCHANGED <<i, rd>>
 
 TraceNext == T_Reset \/ T_Send \/ T_Cmd \/ T_Resp \/ T_Probe \/ T_View \/ T_Exit \/ T_Silent
+             \/ T_Hold \/ T_Release \/ T_HoldFail
 TraceSpec == TInit /\ [][TraceNext]_tvars
 
 \* register 1 = highest number of events consumed on any explored path
